@@ -49,6 +49,34 @@ pub fn run(_params: &[i64], ops: &Rows, mon: &mut Mon) -> Rows {
                     rest = take_drops();
                     got = store.iter().map(|t| t.val()).collect();
                 }
+                3 => {
+                    // the same as kind 0, and then the SAME callback is fed a second sequence (by reference): a callback keeps no memory of an
+                    // earlier stop — the closure decides again for every item (here it never stops again: its counter is past `stop`)
+                    let mut store: Vec<Tok> = Vec::new();
+                    let mut n = 0usize;
+                    let mut f = |t: Tok| { store.push(t); n += 1; n != stop };
+                    let mut cb = OpaqueCallback::from(&mut f);
+                    let c1 = if method == 1 { cb.extend(items); -1 } else { items.into_iter().feed_into_mut(&mut cb) as i64 };
+                    let rest1 = take_drops();
+                    let second: Vec<Tok> = vec![Tok::mk(900), Tok::mk(901), Tok::mk(902)];
+                    let c2 = if method == 1 { cb.extend(second); -1 } else { second.into_iter().feed_into_mut(&mut cb) as i64 };
+                    let more = Callbackable::call(&mut &mut cb, Tok::mk(903));
+                    let rest2 = take_drops();
+                    drop(cb);
+                    let all: Vec<i64> = store.iter().map(|t| t.val()).collect();
+                    // what the closure must have seen: it stops a feed exactly when its own counter reaches `stop`, whichever feed that happens in
+                    let first_n = if stop > 0 { stop.min(vals.len()) } else { vals.len() };
+                    let mut want: Vec<i64> = vals[..first_n].to_vec();
+                    let mut cnt_sim = first_n; let mut want_c2 = 0i64; let mut want_rest2: Vec<i64> = vec![];
+                    let mut stopped = false;
+                    for v in [900i64, 901, 902] { if stopped { want_rest2.push(v); continue; } want.push(v); cnt_sim += 1; want_c2 += 1; if cnt_sim == stop { stopped = true; } }
+                    want.push(903); cnt_sim += 1;
+                    let want_more = cnt_sim != stop;
+                    if all != want || rest2 != want_rest2 || (c2 >= 0 && c2 != want_c2) || more != want_more { mon.fail(format!("case{} a callback that answered stop earlier was fed again: the closure received {:?} (expected {:?}), second count {} (expected {}), undelivered items destroyed {:?} (expected {:?}), a further call returned {} (expected {})", k, all, want, c2, want_c2, rest2, want_rest2, more, want_more)); }
+                    cnt = c1; rest = rest1;
+                    got = all[..first_n.min(all.len())].to_vec();
+                    drop(store);
+                }
                 1 => {
                     let mut store: Vec<Tok> = Vec::new();
                     cnt = feed(method, items, OpaqueCallback::from(&mut store));
@@ -68,7 +96,7 @@ pub fn run(_params: &[i64], ops: &Rows, mon: &mut Mon) -> Rows {
             if cnt >= 0 && cnt as usize != got.len() { mon.fail(format!("case{} count {} but {} items delivered", k, cnt, got.len())); }
             let mut all = got.clone(); all.extend(rest.iter());
             if all != vals { mon.fail(format!("case{} delivered+left {:?} != items {:?}", k, all, vals)); }
-            let want = if kind == 0 && stop > 0 { stop.min(vals.len()) } else { vals.len() };
+            let want = if (kind == 0 || kind == 3) && stop > 0 { stop.min(vals.len()) } else { vals.len() };
             if got.len() != want { mon.fail(format!("case{} delivered {} items, expected {}", k, got.len(), want)); }
             out.push(vec![cnt]);
             out.push(got);
